@@ -506,6 +506,18 @@ pub fn build_goal<G: Kinded>(g: &ast::Goal, env: &Env) -> G {
                 let x = build_term(x, env);
                 fn_goal::<G>(move |_s, state| if x.is_number() { Stream::unit(Box::new(state)) } else { Stream::empty() })
             }
+            NonRel::IsGroundTerm(x) => {
+                fn ground(t: &LT) -> bool {
+                    match t.as_ref() {
+                        LTermInner::Var(..) | LTermInner::Projection(_) => false,
+                        LTermInner::Cons(h, tl) => ground(h) && ground(tl),
+                        LTermInner::Compound(obj) => obj.children().all(|c| c.as_term().map(ground).unwrap_or(true)),
+                        _ => true,
+                    }
+                }
+                let x = build_term(x, env);
+                fn_goal::<G>(move |_s, state| if ground(&x) { Stream::unit(Box::new(state)) } else { Stream::empty() })
+            }
         },
         A::For(x, coll, body) => {
             let items: Vec<LT> = coll.iter().map(|t| build_term(t, env)).collect();
